@@ -375,6 +375,40 @@ class IterFind(Rewrite):
         return text[:start] + new + text[toks[close].end:]
 
 
+class IterFold(Rewrite):
+    """R-fold: `RECV.iter().fold(INIT, |ACC, ITEM| BODY)` => `{ let mut ACC = INIT; for ITEM in itf: RECV { ACC = BODY; } ACC }` --
+    Iterator::fold's definition on a slice iterator; the closure body is copied verbatim (loop contract spliced by ordinal)."""
+    rule = 'R-fold'
+    def __init__(self, count=1, iter_name='itf'):
+        self.count, self.iter_name = count, iter_name
+    def apply(self, text, log):
+        toks = code_tokens(text)
+        hits = [i for i, t in enumerate(toks) if t.text == 'fold' and i >= 5 and [x.text for x in toks[i - 5:i]] == ['.', 'iter', '(', ')', '.'] and toks[i + 1].text == '(']
+        if len(hits) != self.count:
+            raise AnchorLost(f'rewrite R-fold expected {self.count} `.iter().fold(..)` but found {len(hits)}')
+        i = hits[0]
+        close = match_close(toks, i + 1)
+        # INIT up to the depth-0 comma
+        j = i + 2; d = 0
+        while not (toks[j].text == ',' and d == 0):
+            if toks[j].text in OPEN: d += 1
+            elif toks[j].text in CLOSE: d -= 1
+            j += 1
+        init = text[toks[i + 2].start:toks[j - 1].end]
+        if toks[j + 1].text != '|':
+            raise AnchorLost('R-fold: fold argument is not a closure literal')
+        k = j + 2
+        while toks[k].text != '|': k += 1
+        params = text[toks[j + 2].start:toks[k - 1].end]
+        acc, item = [x.strip() for x in params.split(',')]
+        body = text[toks[k].end:toks[close].start].strip().rstrip(',')
+        start = toks[_receiver_start(toks, i - 5)].start
+        recv = text[start:toks[i - 5].start].strip()
+        new = f'{{ let mut {acc} = {init}; for {item} in {self.iter_name}: {recv} {{ {acc} = {body}; }} {acc} }}'
+        log.append((self.rule, '.iter().fold(init, |acc, item| ..) => its defining loop', 1))
+        return text[:start] + new + text[toks[close].end:]
+
+
 class PostfixCall(Rewrite):
     """`RECV.method()` => `helper(RECV)` for a no-argument method (e.g. Option<&T>::cloned => opt_cloned): the helper is the
     method's definition with a Verus contract."""
